@@ -95,6 +95,13 @@ var specialElements = map[string]bool{
 	"style":    true,
 	"textarea": true,
 	"title":    true,
+	// Raw text for an HTML parser as well: nothing inside them is a tag or a comment
+	// until their end tag (noscript: when scripting is enabled).
+	"iframe":   true,
+	"noembed":  true,
+	"noframes": true,
+	"noscript": true,
+	"xmp":      true,
 }
 
 // voidElements contains the names of all void elements.
